@@ -48,12 +48,19 @@ def main():
         out["suite_passes_with_change"] = r.returncode == 0
     # (2)/(3) demonstration
     r1 = sh(["/venv/bin/python", str(wt / "demo.py")], env={"PYTHONPATH": str(wt)}, cwd=str(wt))
-    # unchanged code: stash the change in the scratch worktree (demo scripts may put their own directory on sys.path)
-    sh(["git", "-C", str(wt), "stash"])
+    # unchanged code: take the change out of the scratch worktree by reverse-applying its own diff (NOT `git stash`: the stash list is
+    # shared by all worktrees of one repository, and concurrent stash/pop of several agents hand each other's changes around)
+    pfile = wt / ".seeded-change.diff"
+    pfile.write_text(patch)
+    rr = sh(["git", "-C", str(wt), "apply", "-R", str(pfile)])
+    if rr.returncode != 0:
+        print("cannot reverse-apply the change:", rr.stderr)
+        return 2
     try:
         r0 = sh(["/venv/bin/python", str(wt / "demo.py")], env={"PYTHONPATH": str(wt)}, cwd=str(wt))
     finally:
-        sh(["git", "-C", str(wt), "stash", "pop"])
+        sh(["git", "-C", str(wt), "apply", str(pfile)])
+        pfile.unlink()
     out["demo_fails_with_change"] = r1.returncode != 0
     out["demo_passes_on_unchanged_repo"] = r0.returncode == 0
     out["demo_output_with_change"] = (r1.stdout + r1.stderr).strip()[-600:]
